@@ -257,6 +257,8 @@ func main() {
 		os.Exit(cmdCheck(os.Args[2:]))
 	case "dump":
 		os.Exit(cmdDump(os.Args[2:]))
+	case "replay":
+		os.Exit(cmdReplay(os.Args[2:]))
 	default:
 		fmt.Fprintln(os.Stderr, "unknown command")
 		os.Exit(2)
@@ -536,7 +538,12 @@ func runCheck(o *checkOpts) int {
 			defer wg.Done()
 			sem <- struct{}{}
 			defer func() { <-sem }()
-			sr := Solve(r.smt, smtDir, r.Name, o.timeout, mode)
+			to := o.timeout
+			if (r.Kind == "cover" || r.Kind == "consistency") && to > 10 {
+				// vacuity guards only have to be "not refuted": a short budget is enough to catch a contradiction
+				to = 10
+			}
+			sr := Solve(r.smt, smtDir, r.Name, to, mode)
 			r.Verdict = sr.Verdict
 			r.Solver = sr.Solver
 			r.TimeS = sr.TimeS
@@ -633,6 +640,23 @@ func report(o *checkOpts, spec *PropSpec, ld *Loaded, results []*ObResult, engin
 	}
 	assumptions := append([]string{}, spec.Assumes...)
 	assumptions = append(assumptions, warnList...)
+	// callee contracts used at call sites: verified by which property check, or assumed
+	verifiedBy := claimedFunctions(o.verif)
+	var callee []map[string]interface{}
+	var ucNames []string
+	for n := range usedContracts {
+		ucNames = append(ucNames, n)
+	}
+	sort.Strings(ucNames)
+	for _, n := range ucNames {
+		vb := verifiedBy[n]
+		callee = append(callee, map[string]interface{}{"func": n, "kind": usedContracts[n], "verified_by": vb})
+		if len(vb) == 0 {
+			assumptions = append(assumptions, fmt.Sprintf("contract of %s (%s) is used at call sites but its body is not verified against it by any check: assumed", n, usedContracts[n]))
+		}
+	}
+	trusted := append([]string{}, defaultTrustedBase...)
+	trusted = append(trusted, spec.Trusted...)
 	ev := map[string]interface{}{
 		"property_id": spec.ID,
 		"tier":        o.tier,
@@ -642,7 +666,8 @@ func report(o *checkOpts, spec *PropSpec, ld *Loaded, results []*ObResult, engin
 			"obligations":              claimed,
 			"discharged":               discharged,
 			"checker_cmd":              fmt.Sprintf("./check %s %s", spec.ID, o.tier),
-			"trusted_base":             spec.Trusted,
+			"trusted_base":             trusted,
+			"callee_contracts_used":    callee,
 			"functions_under_contract": funcs,
 			"by_backend":               byBackend,
 			"solver_time_s":            solverTime,
@@ -813,4 +838,82 @@ func (ks *KnownSet) match(prop, ob string) *KnownFinding {
 		}
 	}
 	return nil
+}
+
+// cmdReplay re-generates and re-discharges the single obligation named in a replay file against /repo's current
+// tree (exit 1 + VIOLATION line if it still fails, exit 0 if it is discharged now), after printing what the
+// verifier reported when the file was written. Evidence files are not touched.
+func cmdReplay(args []string) int {
+	if len(args) < 1 {
+		fmt.Fprintln(os.Stderr, "usage: icsvc replay <replay.json>")
+		return 2
+	}
+	b, err := os.ReadFile(args[0])
+	if err != nil {
+		fmt.Fprintln(os.Stderr, "engine error:", err)
+		return 2
+	}
+	var m struct {
+		Property   string `json:"property"`
+		Obligation string `json:"obligation"`
+		Verdict    string `json:"verdict"`
+		Solver     string `json:"solver"`
+		Output     string `json:"solver_output"`
+		Position   string `json:"position"`
+	}
+	if err := json.Unmarshal(b, &m); err != nil || m.Property == "" || m.Obligation == "" {
+		fmt.Fprintln(os.Stderr, "engine error: not a replay file")
+		return 2
+	}
+	out := m.Output
+	if len(out) > 1500 {
+		out = out[:1500] + " ..."
+	}
+	fmt.Printf("replay: property=%s obligation=%s\n  recorded verdict: %s (%s) at %s\n  recorded solver output: %s\n", m.Property, m.Obligation, m.Verdict, m.Solver, m.Position, strings.TrimSpace(out))
+	tmp := "/verif/out/replay"
+	os.MkdirAll(tmp, 0o755)
+	o := &checkOpts{repo: "/repo", verif: "/verif", out: tmp, prop: m.Property, tier: "thorough", only: "^" + regexp.QuoteMeta(m.Obligation) + "$", timeout: 120, workers: 6}
+	if v := os.Getenv("ICSVC_REPO"); v != "" {
+		o.repo = v
+	}
+	return runCheck(o)
+}
+
+// defaultTrustedBase: what every proof by this engine rests on (DESIGN.md section 3).
+var defaultTrustedBase = []string{
+	"T1 icsvc itself: SSA symbolic executor, loop cutting, join merging, contract evaluator, SMT printer (self-tested by the seeded-change corpus in /verif/seeded and the vacuity guards #cover/#consistency)",
+	"T2 go/packages + go/ssa (golang.org/x/tools v0.29.0) as the front end: the verified text is the SSA of /repo's current sources, build tag verif",
+	"T3 SMT solvers z3 4.8.12, z3 5.1.0, cvc5 1.0.3: an `unsat` answer of any one of them is accepted",
+	"T4 KV-store semantics: a store is a total map Bytes->Bytes (nil = absent); CacheContext copies the store, the dependency state and the effect log, its write function copies them back; prefix iterators enumerate exactly the present keys with the prefix, in ascending byte order",
+	"T5 codecs: protobuf Marshal/Unmarshal, sdk.Uint64ToBigEndian, time MarshalBinary and the key builders' encodings are injective with the stated inverses; Unmarshal of nil yields the zero message; Marshal never fails",
+	"T6 dependency keepers (staking, slashing, bank, IBC client/connection/channel, distribution, gov authority) are deterministic functions of their own state X and their arguments; commands append to the effect log E; nothing is assumed about their results except where an assumption is listed",
+	"T7 external pure functions (address conversions, hashing, fmt, strconv, ParseChainID, math.LegacyDec arithmetic beyond +,-,*,comparison) are uninterpreted deterministic functions",
+	"T8 integers: Go fixed-width integers are modelled as mathematical integers with range side conditions where the contract states them (overflow obligations are generated but only claimed where listed); math.Int / LegacyDec / time are unbounded integers",
+	"T9 no concurrency: the state machine is single-threaded (ABCI); goroutines are outside the model",
+	"T10 panics: explicit panics and run-time panics (index, nil map write, iterator misuse) end the path; they are proof obligations only under the nopanic claims listed in the property's spec file",
+}
+
+// claimedFunctions: for every function, the properties whose spec file verifies its body against its contract.
+func claimedFunctions(verif string) map[string][]string {
+	out := map[string][]string{}
+	files, _ := filepath.Glob(filepath.Join(verif, "specs", "props", "C*.json"))
+	sort.Strings(files)
+	for _, f := range files {
+		b, err := os.ReadFile(f)
+		if err != nil {
+			continue
+		}
+		var sp PropSpec
+		if json.Unmarshal(b, &sp) != nil {
+			continue
+		}
+		for _, pf := range sp.Functions {
+			tag := sp.ID
+			if pf.Only != "" {
+				tag += " (clauses matching " + pf.Only + ")"
+			}
+			out[pf.Func] = append(out[pf.Func], tag)
+		}
+	}
+	return out
 }
